@@ -1131,19 +1131,32 @@ std::vector<double> Eigenvalues(const Matrix& M)
 
 Vector Find_Eigenvector_Rayleigh(Matrix& M, double& eigenvalue)
 {
-	Vector b(M.Rows(), 1.0);
-	Matrix I	   = Identity_Matrix(M.Rows());
+	unsigned int n = M.Rows();
+	Matrix I	   = Identity_Matrix(n);
+	// Inverse iteration with a fixed shift next to the eigenvalue. The shift is offset a little, so that the shifted matrix
+	// stays invertible when the eigenvalue is exact (diagonal and block-diagonal matrices).
+	double scale = 0.0;
+	for(unsigned int i = 0; i < n; i++)
+		for(unsigned int j = 0; j < n; j++)
+			scale = std::max(scale, fabs(M[i][j]));
+	double offset = (eigenvalue != 0.0) ? 1.0e-4 * fabs(eigenvalue) : ((scale > 0.0) ? 1.0e-12 * scale : 1.0e-12);
+	Matrix shifted_inverse = (M - ((eigenvalue + offset) * I)).Inverse();
+	// A start vector that is not orthogonal to eigenvectors such as (1,-1,0,...).
+	Vector b(n, 1.0);
+	for(unsigned int i = 0; i < n; i++)
+		b[i] = sqrt(2.0 + i);
+	b.Normalize();
 	double epsilon = 1.0;
-	while(epsilon > 1.0e-10)
+	for(int iteration = 0; iteration < 100 && epsilon > 1.0e-10; iteration++)
 	{
 		Vector b_before = b;
-		b				= (M - (eigenvalue * I)).Inverse() * b;
+		b				= shifted_inverse * b;
 		b.Normalize();
-		eigenvalue = b * (M * b);
-		epsilon	   = 0.0;
-		for(unsigned int i = 0; i < b.Size(); i++)
-			epsilon += Relative_Difference(fabs(b[i]), fabs(b_before[i]));
+		if(b * b_before < 0.0)	 // the direction matters, not the sign
+			b = (-1.0) * b;
+		epsilon = (b - b_before).Norm();
 	}
+	eigenvalue = b * (M * b);
 	return b;
 }
 
